@@ -67,6 +67,9 @@ def run_all(ctx, props, faults=1):
             # the wire (xorb serialization with the compression the code chooses, shard bytes) is read by the harness's
             # own decoder and judged by the same observation machine
             ("A", "random", 10 * k, {"remote": 1}), ("D", "natural", 6 * k, {"remote": 1}),
+            # the top-level API: data_client::upload_async over files on disk (configuration derived from the endpoint,
+            # parallel ingestion through parutils), observed at the loopback server and through the returned pointers
+            ("C", "random", 8 * k, {"api": 1}), ("E", "natural", 5 * k, {"api": 1}),
             # sizes exactly at and one past the chunk-count limit, remainders adding up to the limit / one more
             ("A", "limits", 1, {}), ("G", "limits", 1, {}), ("C", "limits", 1, {}),
             # every single store call failing in turn (nothing stored / stored then failed / failing at finalize)
@@ -113,7 +116,7 @@ def run_all(ctx, props, faults=1):
             counts[kk] = counts.get(kk, 0) + v
         if i == 0:
             ctx.sample({"config": CONFIGS[cfg], "recorded_trace_prefix": r["sample"][:8]})
-        validate(ctx, t, "%s-%s%s%s" % (cfg, mode, "-gd" if "gd" in extra else "", "-remote" if "remote" in extra else ""), props)
+        validate(ctx, t, "%s-%s%s%s" % (cfg, mode, "-gd" if "gd" in extra else "", "-remote" if "remote" in extra else "-api" if "api" in extra else ""), props)
     ctx.notes["event_counts"] = counts
     ctx.notes["configurations"] = {k2: CONFIGS[k2] for k2 in sorted({p[0] for p in plan})}
     # vacuity: the interesting branches must have been exercised
